@@ -212,6 +212,7 @@ func Main(t *testing.T, e Engine) {
 	}
 	seen := map[string]bool{}
 	all := map[string]bool{}
+	perClass := map[string]int{}
 	start := time.Now()
 	h := NewHasher(seed, "run")
 	for k := 0; k < maxRuns; k++ {
@@ -248,9 +249,12 @@ func Main(t *testing.T, e Engine) {
 			out.Samples = append(out.Samples, res.Sample)
 		}
 		for vi, v := range res.Violations {
-			if len(out.Violations) >= 20 {
-				break
+			ck := v.Property + "/" + v.Class + "/" + v.Sig
+			if len(out.Violations) >= 60 || perClass[ck] >= 2 {
+				out.Stats["violations.not-listed"]++
+				continue
 			}
+			perClass[ck]++
 			raw, _ := json.Marshal(sc)
 			rf := ReplayFile{Engine: e.Name(), Property: v.Property, Mode: mode, Tier: tier, Seed: cfg.Seed, Index: idx, Scenario: raw, Expect: &res.Violations[vi], Log: res.Log}
 			_ = os.MkdirAll(replayDir, 0o755)
